@@ -23,7 +23,7 @@ package dials
 
 //@ macro stored(d *Dials) *versionedConfig = atomicval[&d.value]
 //@ macro wfDials(d *Dials) bool = d != nil && stored(d) != nil && hist[&d.value][stored(d)]
-//@     && (forall v Ref :: {hist[&d.value][v]} hist[&d.value][v] ==> v != nil)
+//@     && (forall v Ref :: {hist[&d.value][v]} hist[&d.value][v] ==> v != nil && as(v, "*versionedConfig").cfg != nil)
 //@ macro chanOpen(ch Ref) bool = ch != nil && !closed[ch]
 //@ macro cfgEv(v Iface) *newConfigEvent = pay(v)
 //@ macro errEv(v Iface) *watchErrorEvent = pay(v)
@@ -257,9 +257,10 @@ package dials
 //@ func dials.(*Dials).EnableVerification(d, ctx) (cfg, tok, err)
 //@   props C09 C08
 //@   safety C08
+//@   flag record enableVerification
 //@   flag ctx_guarded
 //@   requires wfDials(d) && ctx != nil
-//@   requires rely_monctl_open: d.monCtl != nil ==> !closed[d.monCtl]
+//@   requires wf_monctl_is_never_closed: d.monCtl != nil ==> !closed[d.monCtl]
 //@   modifies sent, senttime, evclock, recvd, chcap, closed, sentlog_verifyEnable, vlogLen, vlogCfg, vlogErr, vlogTime
 //@   ensures C09_nodelay_noverify: !d.params.DelayInitialVerification ==> vlogLen == old(vlogLen) && err == nil
 //@   ensures C09_success_returns_installed: err == nil && d.monCtl == nil ==>
@@ -467,6 +468,7 @@ package dials
 //@   ensures err == nil ==> shaped(v, as(typ, "*dials.Type").t)
 //@ iface dials.Watcher.Watch(w, ctx, typ, args) (err)
 //@   flag record watch
+//@   modifies ?sourcewrap.Blank.t, ?sourcewrap.Blank.wa, ?sourcewrap.Blank.watchCtx
 //@ iface dials.WatchArgs.ReportNewValue(wa, ctx, val) (err)
 //@   flag record waReport
 //@ iface dials.WatchArgs.BlockingReportNewValue(wa, ctx, val) (err)
@@ -493,19 +495,27 @@ package dials
 //@ extern func reflect.(Value).Elem(v) (e)
 //@   pure
 
+//@ macro isWatcherSrc(s Iface) bool = s != nil && impl(s, "dials.Watcher")
 //@ func dials.(Params).Config(p, ctx, t, sources) (d, err)
 //@   props C04 C05 C08 C09
 //@   safety C08
+//@   flag record dialsConfig
 //@   requires ctx != nil
 //@   requires api_precondition_sources_nonnil: forall k int :: 0 <= k && k < len(sources) ==> sources[k] != nil
-//@   modifies *
+//@   modifies atomicval, hist, storetime, evclock, chcap, sent, recvd, closed, vlogLen, vlogCfg, vlogErr, vlogTime,
+//@            rec_compose, rec_sourceValue, rec_watch, ?sourcewrap.Blank.t, ?sourcewrap.Blank.wa, ?sourcewrap.Blank.watchCtx
 //@   loop 0:
+//@     invariant C18_watchers_so_far_are_watched: forall k int :: 0 <= k && k < rangeidx && k < len(sources) && isWatcherSrc(sources[k]) ==>
+//@          (exists j int :: old(rec_watch_cnt) <= j && j < rec_watch_cnt && rec_watch_arg0[j] == sources[k])
+//@     invariant rec_watch_cnt >= old(rec_watch_cnt)
 //@     invariant C09_no_verify_while_reading_sources: vlogLen == old(vlogLen) && rec_compose_cnt == old(rec_compose_cnt)
 //@     invariant chanOpen(watcherChan)
 //@   at call d.value.Store:
 //@     assume rely_fresh_history: forall v Ref :: !hist[&d.value][v]
+//@   ensures C18_every_watcher_source_is_watched: err == nil ==> (forall k int :: 0 <= k && k < len(sources) && isWatcherSrc(sources[k]) ==>
+//@        (exists j int :: old(rec_watch_cnt) <= j && j < rec_watch_cnt && rec_watch_arg0[j] == sources[k]))
 //@   ensures C04_error_returns_no_dials: err != nil ==> d == nil
-//@   ensures C04_success_returns_dials: err == nil ==> d != nil
+//@   ensures C04_success_returns_dials: err == nil ==> d != nil && fresh(d) && wfDials(d)
 //@   ensures C05_one_compose: err == nil ==> rec_compose_cnt == old(rec_compose_cnt) + 1
 //@   ensures C04_C09_initial_verify_iff: err == nil ==> vlogLen == old(vlogLen)
 //@        + b2i(!p.SkipInitialVerification && !p.DelayInitialVerification && implV(cmpRes(old(rec_compose_cnt))))
